@@ -26,7 +26,7 @@ def run(ctx):
         ctx.add_mc('MC_Loader/SpecAll(%s,enforce_new=%s)' % (variant, en), res)
     rng = ctx.rng
     new_ovs = [None, ('main', 'new'), ('d1/a', 'new'), ('d2/a', 'both')]
-    old_ovs = [None, ('main', 'old'), ('d1/b', 'old'), ('main', 'alias'), ('d1/b', 'alias'), ('d2/a', 'alias')]
+    old_ovs = [None, ('main', 'old'), ('d1/b', 'old'), ('main', 'alias'), ('d1/b', 'alias'), ('d2/a', 'alias'), ('main', 'oldsame'), ('d1/b', 'oldsame')]
     n = 0
     rows = 0
     for variant in lc.VARIANTS:
@@ -42,7 +42,7 @@ def run(ctx):
                     # an unrelated file and a second load must not matter
                     extra = [('write', 'd1/a', 'old')] if (rng.random() < 0.2 and not any(w[1] == 'd1/a' for w in ws) and not oov) else []
                     hs.append(ws + [('load', False)] + ([('load', rng.random() < 0.5)] if rng.random() < 0.5 else []) + extra * 0)
-            for style in range(1 if q else len(lc.STYLES)):
+            for style in ([rng.randrange(len(lc.STYLES))] if q else range(len(lc.STYLES))):
                 traces = []
                 for h in hs:
                     dfl = lc.defaults_for(variant, style, reason=rng.choice(['r', 'because: "x"', '']) or 'r',
